@@ -367,6 +367,7 @@ class Layout:
         if isinstance(val, Src):
             cases = self.case_of(st, val.key)
             ws = []
+            cut = False
             for c in cases:
                 if c.concrete:
                     try:
@@ -383,8 +384,10 @@ class Layout:
                     lo, hi = c.strlen()
                     for n in (lo, hi):
                         ws.append(len(format("x" * n, spec or "")))
+                        # a precision on a text value drops the characters beyond it
+                        cut = cut or len(format("x" * n, spec or "")) < n
             # fixed minimum width of the spec acts as padding
-            return AStr([Seg("fld", src=val.key, clo=min(ws), chi=max(ws), case=cases[0] if len(cases) == 1 else None, spec=spec)])
+            return AStr([Seg("fld", src=val.key, clo=min(ws), chi=max(ws), case=cases[0] if len(cases) == 1 else None, spec=spec, trunc=cut)])
         if isinstance(val, (int, float, str)):
             return AStr.lit(format(val, spec))
         if isinstance(val, AStr) and spec == "":
